@@ -15,13 +15,17 @@ MANIFEST_ENTRY = {
             "(r,c) is placed at canvas centre + (c-(W-1)/2)·fast + (r-(H-1)/2)·slow for every H, W, canvas, scan vectors and knot "
             "count 1..4; the four splat weights of a point add up to exactly 1 over the canvas and the weight map sums to the "
             "number of pixels; a stack of identical images is a fixed point of the alignment loop for any registration routine "
-            "that returns zero shift and the unchanged image on identical inputs (which C13 proves of cross_correlation_shift). "
+            "that returns zero shift and the unchanged image on identical inputs, and C13's model of cross_correlation_shift on the "
+            "code's own FFT formulas is such a routine for every upsampling factor and positive max_image_shift whenever the canvas "
+            "image has a unique positive correlation peak, at least 3x3 pixels and non-zero lowest Fourier coefficients on both "
+            "axes (no correlation-theorem or strict-patch hypothesis left; concrete 3x3 witness). "
             "Tied to the code on every run by float64 differential runs of preprocess/transform_coordinates/align_translation "
             "and an exact (dyadic-coordinate) differential run of bilinear_kde.",
     "note": "Trusted: Lean kernel + propext/Classical.choice/Quot.sound; scipy.interpolate.interp1d (quadratic/cubic through "
             "3/4 points = the interpolating polynomial) and scipy.ndimage.gaussian_filter (mode=reflect conserves the sum) are "
-            "modelled/assumed and only measured; float32 accumulation of the weight map; the link 'identical warped images => "
-            "zero measured shift' is imported from C13 as a hypothesis of the fixed-point theorem.",
+            "modelled/assumed and only measured; float32 accumulation of the weight map. Moved from assumed to proved in round 2: "
+            "the correlation theorem (hypothesis hcc) and the strict patch maximum (hypothesis hstrict) of the fixed-point theorem, "
+            "both discharged from C13 (identical_stack_fixed_point_fft, identical_stack_fixed_point_of_axis_coeffs).",
     "technique": "Lean 4 proof (field identities for Lagrange interpolation of affine data, finite case analysis of wrap indexing, induction over the image list) + model-vs-implementation correspondence",
 }
 RULE = ("a case is one preprocess configuration (shape, per-image scan angles, pad fraction, knot count, pad_value kind, kde sigma), "
